@@ -273,12 +273,16 @@ extern "C" int harness_main() {
   InvocationOpts o; o.targets = symbolic_targets(sc, "request_target"); o.run.parallelism = 1 + verif_choice("jobs_minus_1", 2);
   std::string before = tree_snapshot(); size_t ndirs = g_tree->dirs.size();
   InvocationOpts d = o; d.dry_run = true;
+#ifdef LEFTOVERS
+  g_tree->dirs.clear(); g_mkdir_may_fail = true;       // creating an output directory may fail during the dry run
+#endif
   InvocationResult rd = invoke(d);
+  g_mkdir_may_fail = false;
   VERIF_ASSERT(rd.parsed && rd.added, "the scenario manifest parses and the targets are known");
   std::string after = tree_snapshot();
   VERIF_ASSERT(rd.started.empty(), "C19: a dry run executes no build command");
   VERIF_ASSERT(before == after, "C19: a dry run leaves every source, output, depfile and both logs unchanged");
-  VERIF_ASSERT(rd.rc == 0, "C19: a dry run succeeds");
+  if (rd.rc != 0) { verif_reach("dry-run-aborted"); return 0; }
   // the listing of the dry run against the real run from the same state
   InvocationResult rr = invoke(o);
   observe(rr);
